@@ -4,6 +4,7 @@ package c02
 import (
 	"bytes"
 	"context"
+	"encoding/binary"
 	"fmt"
 	"io"
 	"os"
@@ -25,16 +26,17 @@ import (
 )
 
 type Case struct {
-	Pieces  []gen.Piece `json:"pieces"`
-	Sizes   gen.Sizes   `json:"sizes"`
-	Ns      []int       `json:"ns"`      // worker counts for IndexFromFile
-	Frag    []int       `json:"frag"`    // read fragment lengths, consumed round-robin (>=1 each)
-	EOFWith bool        `json:"eofwith"` // final fragment is returned together with io.EOF
-	Perturb [][]int     `json:"perturb"` // one perturbation vector per repetition
-	Sched   []SchedSpec `json:"sched"`   // harness-owned schedules of the chunk workers
-	SHA256  bool        `json:"sha256"`
-	StreamN int         `json:"stream_n"` // ChunkStream workers
-	CLI     bool        `json:"cli"`      // thorough: also run `desync make`
+	Pieces    []gen.Piece `json:"pieces"`
+	Sizes     gen.Sizes   `json:"sizes"`
+	Ns        []int       `json:"ns"`                   // worker counts for IndexFromFile
+	Frag      []int       `json:"frag"`                 // read fragment lengths, consumed round-robin (>=1 each)
+	EOFWith   bool        `json:"eofwith"`              // final fragment is returned together with io.EOF
+	Perturb   [][]int     `json:"perturb"`              // one perturbation vector per repetition
+	Sched     []SchedSpec `json:"sched"`                // harness-owned schedules of the chunk workers
+	CatarHead int         `json:"catar_head,omitempty"` // >0: the input starts with a catar ENTRY header (1: flags incl. SHA512-256, 2: flags without it, 3: all flag bits set)
+	SHA256    bool        `json:"sha256"`
+	StreamN   int         `json:"stream_n"` // ChunkStream workers
+	CLI       bool        `json:"cli"`      // thorough: also run `desync make`
 }
 
 // SchedSpec is one controlled schedule: which parked worker advances at each step.
@@ -85,6 +87,7 @@ func (r *fragReader) Read(p []byte) (int, error) {
 func genCase(t *rapid.T) Case {
 	var c Case
 	wide := false
+	nullAvg := false
 	c.Sizes = gen.ChunkSizes(t, true)
 	if !hx.Thorough() && c.Sizes.Max > 16384 {
 		c.Sizes = gen.Sizes{Min: 64, Avg: 256, Max: 1024}
@@ -98,6 +101,12 @@ func genCase(t *rapid.T) Case {
 		if rapid.Bool().Draw(t, "sensitive") {
 			sens := sensitiveAvgs()
 			avg = sens[rapid.Uint64().Draw(t, "sensidx")%uint64(len(sens))]
+		}
+		if nb := nullBoundaryAvgs(); len(nb) > 0 && rapid.IntRange(0, 3).Draw(t, "nullboundary") == 0 {
+			// averages at which a window of 48 null bytes IS a boundary: runs of zeros are cut
+			// right after min instead of running to max
+			avg = nb[rapid.Uint64().Draw(t, "nbidx")%uint64(len(nb))]
+			nullAvg = true
 		}
 		c.Sizes = gen.Sizes{Min: 48 + rapid.Uint64().Draw(t, "minbits")%16, Avg: avg, Max: avg*4 + uint64(rapid.IntRange(0, 100).Draw(t, "dmaxw"))}
 		if c.Sizes.Min > avg {
@@ -130,6 +139,11 @@ func genCase(t *rapid.T) Case {
 			n = lim
 		}
 		c.Pieces = []gen.Piece{{Kind: "rand", Len: n, Seed: rapid.Uint64().Draw(t, "ws")}}
+		if nullAvg { // zero runs between data: every zero run is cut into chunks of min+1 bytes
+			z := int(c.Sizes.Max)*rapid.IntRange(1, 3).Draw(t, "nzk") + rapid.IntRange(0, 100).Draw(t, "nzd")
+			c.Pieces = []gen.Piece{{Kind: "rand", Len: n / 4, Seed: rapid.Uint64().Draw(t, "ws1")}, {Kind: "zero", Len: z},
+				{Kind: "rand", Len: n / 4, Seed: rapid.Uint64().Draw(t, "ws2")}, {Kind: "zero", Len: z / 2}}
+		}
 	case shape <= 3:
 		c.Pieces = gen.Pieces(t, maxLen, mn, mn+1, mx, mx/2, 48)
 	case shape == 5: // zero run crossing worker starts: prefix, k*max(+-1) zeros, suffix
@@ -201,6 +215,9 @@ func genCase(t *rapid.T) Case {
 		c.Sched = append(c.Sched, sp)
 	}
 	c.SHA256 = rapid.IntRange(0, 4).Draw(t, "sha256") == 0
+	if rapid.IntRange(0, 9).Draw(t, "catarhead?") == 0 {
+		c.CatarHead = rapid.IntRange(1, 3).Draw(t, "catarhead")
+	}
 	c.StreamN = rapid.IntRange(1, 8).Draw(t, "streamn")
 	c.CLI = hx.Thorough() && os.Getenv("VERIF_DESYNC_BIN") != "" && rapid.IntRange(0, 30).Draw(t, "cli") == 0
 	return c
@@ -212,6 +229,14 @@ var sensList []uint64
 func sensitiveAvgs() []uint64 {
 	sensOnce.Do(func() { sensList = ref.SensitiveAvgs(48, uint64(hx.Pick(60_000, 1<<20))) })
 	return sensList
+}
+
+var nbOnce sync.Once
+var nbList []uint64
+
+func nullBoundaryAvgs() []uint64 {
+	nbOnce.Do(func() { nbList = ref.NullBoundaryAvgs(48, uint64(hx.Pick(60_000, 1<<20))) })
+	return nbList
 }
 
 func max0(n int) int {
@@ -248,8 +273,30 @@ func fmtSpans(s []ref.Span, at int) string {
 	return fmt.Sprintf("#%d..%d of %d: %v", lo, hi, len(s), s[lo:hi])
 }
 
+// catarHead is the 64-byte ENTRY element a catar archive starts with (a directory, mode 0755).
+func catarHead(kind int) []byte {
+	flags := uint64(desync.TarFeatureFlags)
+	switch kind {
+	case 2:
+		flags &^= desync.CaFormatSHA512256
+	case 3:
+		flags = ^uint64(0)
+	}
+	b := make([]byte, 64)
+	binary.LittleEndian.PutUint64(b[0:], 64)
+	binary.LittleEndian.PutUint64(b[8:], desync.CaFormatEntry)
+	binary.LittleEndian.PutUint64(b[16:], flags)
+	binary.LittleEndian.PutUint64(b[24:], 0o40755)
+	binary.LittleEndian.PutUint64(b[56:], 1_500_000_000_000_000_000)
+	return b
+}
+
 func run(c Case) (o hx.Outcome) {
 	blob := gen.Expand(c.Pieces)
+	if c.CatarHead > 0 {
+		blob = append(catarHead(c.CatarHead), blob...)
+		o.Class("input-starts-with-catar-entry")
+	}
 	sz := c.Sizes
 	want := ref.Chunk(blob, sz.Min, sz.Avg, sz.Max, false)
 	degenerate := sz.Min == sz.Max
@@ -481,6 +528,11 @@ func run(c Case) (o hx.Outcome) {
 	if sz.Max > 8<<20 {
 		o.Class("max>8MiB")
 	}
+	for _, a := range nullBoundaryAvgs() {
+		if a == sz.Avg {
+			o.Class("avg:null-window-is-boundary")
+		}
+	}
 	if sz.Avg >= 11000 {
 		o.Class("avg>=11000")
 		if ref.Discriminator(sz.Avg) != uint32(float32(sz.Avg)/(float32(-1.42888852e-7)*float32(sz.Avg)+float32(1.33237515))) {
@@ -561,7 +613,7 @@ var spec = &hx.Spec[Case]{
 	Rule: "cases = (blob from pieces: random/zero runs/constant/periodic/repeats at lengths around multiples of min, max and of size/n; (min,avg,max) incl. min=max; worker counts; read fragmentation vector; perturbation vectors for the pchunk.* hook sites); " +
 		"oracle = independent reference chunker (direct 48-byte window buzhash); non-trivial = effective worker count >= 2 and ChunksProduced > ChunksAccepted+1 (workers really overlapped); distinct by (length, sizes, ns, fragmentation, content hash)",
 	Assumptions: []string{"reference chunker reproduces casync's chunker.index (self test)", "schedules are sampled via hook-site perturbation, not enumerated", "buzhash table copied from casync at authoring time"},
-	Required:    []string{"avg>=11000", "avg:precision-sensitive", "controlled-schedule", "zero-run>=3max", "constant-data", "periodic-data", "size<max", "size-0", "effective-n>=2", "workers-overlapped", "fragmented-reads", "span%max==0", "span%max==max/2", "max>8MiB"},
+	Required:    []string{"avg>=11000", "avg:precision-sensitive", "controlled-schedule", "zero-run>=3max", "constant-data", "periodic-data", "size<max", "size-0", "effective-n>=2", "workers-overlapped", "fragmented-reads", "span%max==0", "span%max==max/2", "max>8MiB", "input-starts-with-catar-entry", "avg:null-window-is-boundary"},
 	Gen:         genCase,
 	Run:         run,
 	Journal:     true,
